@@ -180,15 +180,24 @@ structure Request where
   first question -/
   hostBlocked : Bool
 
-/-- `(*Server).HandleBefore`: the action and the ClientID put into
-`clientIDCache` (empty = nothing stored). -/
-def handleBefore (a : Access) (r : Request) : Action × Bytes :=
+/-- `clientID, cidErr := s.clientIDFromDNSContext(pctx)`: the ClientID the
+access checks see — empty when the extraction failed. -/
+def Request.effectiveID (r : Request) : Bytes :=
   match r.clientID with
-  | .error _ => (.servfail, [])
-  | .ok clientID =>
-    if (a.isBlockedClient r.addr clientID).1 then (preBlockedResponse r.proto, [])
-    else if r.nq = 1 ∧ r.hostBlocked then (preBlockedResponse r.proto, [])
-    else (.pass, clientID)
+  | .ok id => id
+  | .error _ => []
+
+/-- `(*Server).HandleBefore`: the action and the ClientID put into
+`clientIDCache` (empty = nothing stored).  The access checks come first, with
+an empty ClientID when the extraction failed; the extraction error is reported
+(SERVFAIL) only for a request that passed them. -/
+def handleBefore (a : Access) (r : Request) : Action × Bytes :=
+  let clientID := r.effectiveID
+  if (a.isBlockedClient r.addr clientID).1 then (preBlockedResponse r.proto, [])
+  else if r.nq = 1 ∧ r.hostBlocked then (preBlockedResponse r.proto, [])
+  else match r.clientID with
+    | .error _ => (.servfail, [])
+    | .ok _ => (.pass, clientID)
 
 /-! ### dnsproxy: what happens to a request around the hook
 
